@@ -263,6 +263,8 @@ func (e *env) runArgs(mode string, a, b, c rt.Value) {
 	hlib.Emit(mode, e.enc(a), e.enc(b), e.enc(c), "=", e.finish(class))
 }
 
+var litCount int
+
 // literal renders v as a Lua expression that evaluates to exactly v.
 func literal(v rt.Value) string {
 	switch v.Type() {
@@ -289,9 +291,12 @@ func literal(v rt.Value) string {
 		case math.IsInf(f, -1):
 			return "-math.huge"
 		case f == 0 && math.Signbit(f):
-			return "-0.0"
+			// the negative zero in its spellings: literal, computed, hexadecimal
+			litCount++
+			return []string{"-0.0", "(0*-1.0)", "(-1/math.huge)", "-0x0p0", "-0e5", "(-0.0)"}[litCount%6]
 		case f == 0:
-			return "0.0"
+			litCount++
+			return []string{"0.0", "0e0", "0x0p0", "(1/math.huge)", ".0"}[litCount%5]
 		}
 		return strconv.FormatFloat(f, 'x', -1, 64)
 	case rt.StringType:
@@ -308,6 +313,11 @@ func literal(v rt.Value) string {
 
 func (e *env) runLit(a, b, c rt.Value) {
 	e.reset()
+	// the spelling of a zero literal depends on the triple only (replayable)
+	litCount = 0
+	for _, ch := range hlib.Enc(a) + hlib.Enc(b) + hlib.Enc(c) {
+		litCount = (litCount*31 + int(ch)) % 1000003
+	}
 	src := "for i = " + literal(a) + ", " + literal(b) + ", " + literal(c) + " do emit(i, math.type(i)) end"
 	cl, err := hlib.Load(e.r, "c16lit", src)
 	if err != nil {
@@ -335,20 +345,21 @@ func lattice(level int) []rt.Value {
 	}
 	p53 := int64(1) << 53
 	// integers
-	for _, n := range []int64{0, 1, -1, 2, -2, 3, math.MaxInt64, math.MinInt64, math.MaxInt64 - 1, math.MinInt64 + 1, p53, -p53, p53 + 1} {
+	for _, n := range []int64{0, 1, -1, 2, -2, math.MaxInt64, math.MinInt64, math.MaxInt64 - 1, p53, p53 + 1} {
 		add(iv(n))
 	}
 	// floats
-	for _, f := range []float64{0.5, 1, -1, 2.5, -1.5, math.Ldexp(1, 63), -math.Ldexp(1, 63), math.Inf(1), math.Inf(-1), math.NaN(),
+	for _, f := range []float64{0, math.Copysign(0, -1), 0.5, 1, -1, 2.5, -1.5, math.Ldexp(1, 63), -math.Ldexp(1, 63), math.Inf(1), math.Inf(-1), math.NaN(),
 		math.Nextafter(math.Ldexp(1, 63), 0), math.Ldexp(1, 53)} {
 		add(fv(f))
 	}
 	add(sv("2"))
+	add(sv("-0.0")) // a zero step in every spelling is an error: both signed zeros, also out of a string
 	add(rt.NilValue)
 	if level == 0 {
 		return out
 	}
-	for _, n := range []int64{-3, 5, 7, -7, 40, 41, math.MaxInt64 - 2, math.MaxInt64 - 40, math.MinInt64 + 2, math.MinInt64 + 40,
+	for _, n := range []int64{3, math.MinInt64 + 1, -p53, -3, 5, 7, -7, 40, 41, math.MaxInt64 - 2, math.MaxInt64 - 40, math.MinInt64 + 2, math.MinInt64 + 40,
 		p53 - 1, -(p53 + 1), -(p53 - 1), 1 << 62, -(1 << 62), math.MaxInt64 / 2, math.MaxInt64/2 + 1} {
 		add(iv(n))
 	}
@@ -357,7 +368,7 @@ func lattice(level int) []rt.Value {
 		math.Nextafter(math.Ldexp(1, 63), math.Inf(1)), math.Ldexp(1, 62), 9.2e18, -9.2e18, math.MaxFloat64} {
 		add(fv(f))
 	}
-	for _, s := range []string{"0x10", "1e1", " 3 ", "2.5", "abc", "", "-1"} {
+	for _, s := range []string{"0x10", "1e1", " 3 ", "2.5", "abc", "", "-1", "-0"} {
 		add(sv(s))
 	}
 	add(rt.BoolValue(true))
@@ -395,6 +406,9 @@ func randNum(rng *hlib.Rng) rt.Value {
 // near start + k*step.
 func randTriple(rng *hlib.Rng) (a, b, c rt.Value) {
 	a, c = randNum(rng), randNum(rng)
+	if rng.Below(25) == 0 {
+		c = []rt.Value{iv(0), fv(0), fv(math.Copysign(0, -1)), sv("-0.0"), sv("0x0"), sv("-0")}[rng.Below(6)]
+	}
 	if rng.Chance(30) {
 		return a, randNum(rng), c
 	}
@@ -466,11 +480,33 @@ func main() {
 				}
 			}
 		}
+		// a zero in every spelling, as step (an error whatever the other two are), as initial value, as limit
+		zeros := []rt.Value{iv(0), fv(0), fv(math.Copysign(0, -1)), sv("0"), sv("-0"), sv("0.0"), sv("-0.0"), sv("0e0"),
+			sv("-0x0p0"), sv("0x0"), sv(" -0.0 "), sv("-0e-5")}
+		zab := core
+		if !thorough {
+			zab = nil
+			for i, v := range small {
+				if i%2 == 0 {
+					zab = append(zab, v)
+				}
+			}
+		}
+		for _, z := range zeros {
+			for _, a := range zab {
+				for _, b := range zab {
+					e.runArgs("arg", a, b, z)
+					e.runArgs("arg", z, a, b)
+					e.runArgs("arg", a, z, b)
+					e.runLit(a, b, z)
+				}
+			}
+		}
 		// the control expressions in every syntactic shape ("evaluates its three expressions once")
-		shapes := []rt.Value{iv(0), iv(1), iv(-1), iv(math.MaxInt64 - 1), fv(2.5), fv(math.Inf(1)),
+		shapes := []rt.Value{iv(0), iv(1), iv(-1), iv(math.MaxInt64 - 1), fv(2.5), fv(math.Copysign(0, -1)),
 			fv(math.NaN()), sv("2"), rt.NilValue}
 		if thorough {
-			shapes = append(shapes, iv(3), fv(1), iv(-3), iv(math.MinInt64), fv(-1.5), fv(math.Ldexp(1, 63)), sv("0x10"), sv("1e1"), rt.BoolValue(true))
+			shapes = append(shapes, iv(3), fv(1), fv(math.Inf(1)), sv("-0"), iv(-3), iv(math.MinInt64), fv(-1.5), fv(math.Ldexp(1, 63)), sv("0x10"), sv("1e1"), rt.BoolValue(true))
 		}
 		for _, mode := range extraOrder {
 			for _, a := range shapes {
